@@ -552,17 +552,19 @@ func TestProp(t *testing.T) {
 	rep.Assume("stream c19-proxy-request: the proxy's sign-out request is fuzzed (open-redirect style values in rd/redirect/redirect_uri/return_to/next/url/continue/state/ts/sig as query or POST form parameters, X-Forwarded-Host/Forwarded/X-Original-URL style headers, hostile request-targets, GET/POST/HEAD); the host the request is FOR is the Host header, or the authority of an absolute-form target (Go's server semantics); a client-chosen landing path on that same host is a don't-care")
 	rep.Assume("authenticator session time at sign-out: token-expired and lifetime-nearly-over sessions must be revoked like fresh ones (Okta revokes the refresh token, which does not lapse with the access token); lifetime-expired sessions and sessions with neither refresh token nor live access token are counted don't-cares; a session without refresh token but with a live access token must not be cleared without any revoke call at the IdP")
 	rep.Assume("revoke outcome 'timeout' (first 6 / 40 histories, and 6 / 24 concurrent groups): the fake IdP holds its answer until after the authenticator answered the browser, i.e. beyond the provider HTTP client's 5 s timeout; the token counts as NOT revoked; revoke calls that reach the IdP after the response are counted (late_revoke_calls_after_response), they do not make the sign-out right")
+	rep.Assume("stream c19-nonconfirming: harness-sealed sessions (one grant in both cookies, active at the fake IdP); every request method is written on the wire verbatim (GET, HEAD, OPTIONS, PUT, PATCH, DELETE, TRACE, PROPFIND, QUERY, SEARCH, POSTX, get, head, Head) with and without X-HTTP-Method-Override / X-Method-Override / X-HTTP-Method headers and _method / method fields, the signed parameters in the query, a form body or both, x valid / stale / forged / out-of-domain signatures x genuine / absent / forged cookies. Only a request whose method is exactly POST is the confirming one (positive control: it is seen to revoke); post / Post, and a POST that carries an override to GET, are counted don't-cares. At the proxy, GET is the visit of the statement; what HEAD, POST and the other methods do to the proxy cookie is a counted don't-care, but nothing there may revoke the token or end the session. Re-issuing the SAME session in a fresh cookie and clearing a junk cookie are don't-cares")
 	rep.Assume("virtual time: the saved proxy cookie is re-sealed with all deadlines moved into the past (11 min: validity lapsed; 65 min: access token lapsed); signature timestamps are crafted by the harness, >= 60 s away from the 5 minute edge")
 
 	only, skipHist := env.Only(stream)
 	onlyConc, skipConc := env.Only(streamConc)
 	onlyReq, skipReq := env.Only(streamReq)
-	if !skipHist || !skipConc || !skipReq {
+	onlyNC, skipNC := env.Only(streamNC)
+	if !skipHist || !skipConc || !skipReq || !skipNC {
 		w, err := newWorld()
 		if err != nil {
 			rep.Inconclusive("two-service stack did not start: " + err.Error())
 		} else {
-			// the three streams share the stack and run side by side (their waits overlap)
+			// the streams share the stack and run side by side (their waits overlap)
 			var streams sync.WaitGroup
 			if !skipHist {
 				streams.Add(1)
@@ -595,6 +597,15 @@ func TestProp(t *testing.T) {
 					start := time.Now()
 					runReqFuzz(w, rep, env, onlyReq)
 					rep.Extra("wall_proxy_request_fuzz_s", time.Since(start).Seconds())
+				}()
+			}
+			if !skipNC {
+				streams.Add(1)
+				go func() {
+					defer streams.Done()
+					start := time.Now()
+					runNonConfirming(w, rep, env, onlyNC)
+					rep.Extra("wall_nonconfirming_s", time.Since(start).Seconds())
 				}()
 			}
 			streams.Wait()
